@@ -3,7 +3,7 @@
 import json, os, re, glob
 ROOT = os.path.dirname(os.path.dirname(os.path.abspath(__file__)))
 rows = ["| change | property | file(s) | outcome |", "|---|---|---|---|"]
-n = caught = later = 0
+n = caught = later = other = 0
 for d in sorted(glob.glob(os.path.join(ROOT, "seeded", "*"))):
     mp = os.path.join(d, "meta.json")
     if not os.path.exists(mp):
@@ -13,15 +13,18 @@ for d in sorted(glob.glob(os.path.join(ROOT, "seeded", "*"))):
     n += 1
     if res.startswith("CAUGHT"):
         caught += 1
-    elif "after" in res and "CAUGHT" in res:
+    elif re.search(r"[Aa]fter (adding|tightening|modelling|making|the |a )", res.split("CAUGHT")[0]) and "CAUGHT" in res:
         later += 1
+    elif re.search(r"CAUGHT by \./check C\d\d", res):
+        other += 1
     rows.append("| %s | %s | %s | %s |" % (os.path.basename(d), m["property"],
                                         ", ".join(os.path.basename(f) for f in m.get("files_changed", [])),
                                         res.replace("|", "\\|")))
-txt = "\n%d changes: %d caught by the check as it was, %d caught after the check was strengthened, %d not caught.\n\n" % (
-    n, caught, later, n - caught - later) + "\n".join(rows) + "\n"
+txt = ("\n%d changes: %d caught by the property's check as it was, %d caught after that check was strengthened, "
+       "%d not by the property's own check but by the check of a neighbouring property, %d not caught "
+       "(by design, reason in the row).\n\n" % (n, caught, later, other, n - caught - later - other)) + "\n".join(rows) + "\n"
 p = os.path.join(ROOT, "DESIGN.md")
 s = open(p).read()
 s = re.sub(r"<!-- SEEDED-BEGIN -->.*<!-- SEEDED-END -->", lambda m_: "<!-- SEEDED-BEGIN -->" + txt + "<!-- SEEDED-END -->", s, flags=re.S)
 open(p, "w").write(s)
-print(n, caught, later)
+print(n, caught, later, other)
